@@ -278,7 +278,7 @@ func snapFile(dir string, index uint64) string {
 
 // findSnapshots returns list of snapshots from latest to oldest
 func findSnapshots(dir string) ([]uint64, error) {
-	matches, err := filepath.Glob(filepath.Join(dir, "*.meta"))
+	matches, err := filepath.Glob(filepath.Join(globEscape(dir), "*.meta"))
 	if err != nil {
 		return nil, err
 	}
